@@ -291,9 +291,11 @@ impl PatchChain {
             match entry.archive.list() {
                 Ok(files) => {
                     for file in files {
-                        // Only add if we haven't seen this file yet
-                        if !seen.contains_key(&file.name) {
-                            seen.insert(file.name.clone(), idx);
+                        // Only add if we haven't seen this file yet. Names are
+                        // case- and separator-insensitive, so compare the folded form.
+                        let key = crate::path::normalize_mpq_path(&file.name).to_ascii_uppercase();
+                        if let std::collections::hash_map::Entry::Vacant(e) = seen.entry(key) {
+                            e.insert(idx);
                             result.push(file);
                         }
                     }
@@ -302,8 +304,10 @@ impl PatchChain {
                     // Try list_all if no listfile
                     if let Ok(files) = entry.archive.list_all() {
                         for file in files {
-                            if !seen.contains_key(&file.name) {
-                                seen.insert(file.name.clone(), idx);
+                            let key =
+                                crate::path::normalize_mpq_path(&file.name).to_ascii_uppercase();
+                            if let std::collections::hash_map::Entry::Vacant(e) = seen.entry(key) {
+                                e.insert(idx);
                                 result.push(file);
                             }
                         }
